@@ -20,7 +20,7 @@ Num4(s, i) == (s[i] - 48) * 1000 + (s[i+1] - 48) * 100 + (s[i+2] - 48) * 10 + (s
 \* length of the maximal digit run starting at i
 DigitRun(s, i) ==
     LET N == {k \in 0..(Len(s) - i + 1) : \A j \in i..(i + k - 1) : Dig(s, j)}
-    IN CHOOSE k \in N : \A k2 \in N : k2 <= k
+    IN Max(N)
 
 \* first nine fraction digits, right-padded with zeros, as nanoseconds
 Nanos(s, i, n) ==
